@@ -301,12 +301,21 @@ def policy_level(chk, theorems_ok):
            {"name": "three failing calls, two tokens", "kind": "policy_budget",
             "cfg": {"max": 2, "win": 1000, "policies": 3, "max_attempts": 2}, "clock": 3,
             "threads": [[["execute", 0]], [["execute", 1]], [["execute", 2]]], "bound": 1 if chk.tier == "quick" else 2,
-            "max_schedules": 800 if chk.tier == "quick" else 20000}]
+            "max_schedules": 800 if chk.tier == "quick" else 20000},
+           # the Budget itself under two callers, pre-empted before every source line of budget.py (its lock replaced by a
+           # cooperative one): the check for capacity and the grant are one step
+           {"name": "one token left: two consume() calls", "kind": "budget", "cfg": {"max": 1, "win": 100}, "setup": [], "clock": 3,
+            "threads": [[["consume"]], [["consume"]]], "bound": 3 if chk.tier == "quick" else None,
+            "max_schedules": 1500 if chk.tier == "quick" else 40000},
+           {"name": "two tokens: cost 2 against cost 1 and a reader", "kind": "budget", "cfg": {"max": 2, "win": 100}, "setup": [], "clock": 3,
+            "threads": [[["consume", 2]], [["consume"]], [["remaining"]]], "bound": 2,
+            "max_schedules": 1500 if chk.tier == "quick" else 40000}]
     res = common.run_driver("sched_driver", scs, timeout=3000, jobs=2)
     pl["thread_schedules"] = [{"name": sc["name"], "schedules": r["schedules"], "outcomes": len(r["outcomes"])} for sc, r in zip(scs, res)]
     for sc, r in zip(scs, res):
         for o in r["outcomes"]:
-            granted = sum(x[0][3] for x in o[0] if x)
+            granted = sum((r[3] if r[0] == "X" else (op[1] if len(op) > 1 else 1) if r[0] == "B" and r[1] else 0)
+                          for thr, ops in zip(o[0], sc["threads"]) if thr for r, op in zip(thr, ops))
             if granted > sc["cfg"]["max"] or o not in r["sequential"]:
                 chk.violation({"kind": "oracle", "what": f"scenario '{sc['name']}': {granted} retries granted with max_retries="
                                f"{sc['cfg']['max']} in one window (outcome {json.dumps(o)}; sequential outcomes {json.dumps(r['sequential'])})",
